@@ -750,6 +750,15 @@ func (m *mappedFile) newCounter(name string) (v *atomic.Uint64, m1 *mappedFile, 
 		}
 	}
 
+	// Nothing has ever been written above the allocation limit, so the
+	// space just reserved must be zero. If it is not, or if it does not lie
+	// in the record area at all, the limit recorded in the file is wrong
+	// (corrupt): writing the record would destroy other counters.
+	if start < m.hdrLen+hashOff+4*numHash || end <= start || !allZero(m.mapping.Data[start:end]) {
+		debugFatalf("corrupt: allocation limit leads to used space %#x-%#x", start, end)
+		return nil, nil, errCorrupt
+	}
+
 	// Write record.
 	next, v, ok := m.writeEntryAt(start, name)
 	if !ok {
@@ -795,6 +804,16 @@ func (m *mappedFile) newCounter(name string) (v *atomic.Uint64, m1 *mappedFile, 
 			off = enext
 		}
 	}
+}
+
+// allZero reports whether b consists of zero bytes only.
+func allZero(b []byte) bool {
+	for _, c := range b {
+		if c != 0 {
+			return false
+		}
+	}
+	return true
 }
 
 func (m *mappedFile) extend(end uint32) (*mappedFile, error) {
